@@ -155,7 +155,7 @@ impl File {
         let test_cases = visual_elements(&doc, &["Testcase"])
             .filter_map(|node| {
                 let name: String = if let Some(label_node) = attrib(node, "Label") {
-                    label_node.text()?.to_string()
+                    label_node.text().unwrap_or("").to_string()
                 } else {
                     String::from("(unnamed)")
                 };
@@ -167,7 +167,7 @@ impl File {
                 if data_string_node.tag_name().name() != "dataString" {
                     return None;
                 }
-                let source = data_string_node.text()?.to_string();
+                let source = data_string_node.text().unwrap_or("").to_string();
 
                 Some(TestCaseDescription { name, source })
             })
